@@ -68,8 +68,8 @@ func init() {
 		RequirePositive: "cmp:", RequireCount: 93,
 	})
 	reg(&propCfg{
-		ID: "C10", Level: "exploration",
-		Rule: "generated operation histories (Append with batches of 0-5 snapshots incl. empty batches and equal consecutive dates, Get, GetSince with bounds at / one day before / one day after stored dates, LastDate, Assets; 3-4 asset names plus a never-appended one; values = any finite float64 incl. +-MaxFloat64, smallest subnormals, 17-digit decimals; whole-day UTC dates from 2000-01-01; pre-existing zero-byte and header-only CSV files) are applied step by step to the sequential model map[name][]snapshot and to each of the in-memory, file-system (fresh temp dir) and SQL (database/sql over the in-memory fakesql driver and its dialect) repositories; after every step error-ness and contents are compared (Date.Equal, float bits), every Append is followed immediately by a read of the same asset. distinct_nontrivial counts histories with >= 2 appends and >= 3 reads.",
+		ID: "C10", Level: "exploration", Race: "both",
+		Rule: "generated operation histories (Append with batches of 0-5 snapshots incl. empty batches and equal consecutive dates, Get, GetSince with bounds at / one day before / one day after stored dates, LastDate, Assets; 3-4 asset names plus a never-appended one; values = any finite float64 incl. +-MaxFloat64, smallest subnormals, 17-digit decimals; whole-day UTC dates from 2000-01-01; pre-existing zero-byte and header-only CSV files) are applied step by step to the sequential model map[name][]snapshot and to each of the in-memory, file-system (fresh temp dir) and SQL (database/sql over the in-memory fakesql driver and its dialect) repositories; after every step error-ness and contents are compared (Date.Equal, float bits), every Append is followed immediately by a read of the same asset. Concurrent histories (plain and -race builds, GOMAXPROCS=16): one writer per asset appends a planned, strictly dated list batch by batch while 3-8 readers issue Get/GetSince/LastDate/Assets on any asset; calls and returns are stamped from one atomic logical clock and every read must have observed a prefix of length m with (snapshots of Appends returned before the call) <= m <= (snapshots of Appends called before the return) - linearizability of a single-writer append-only list, decided exactly; in-memory readers overlap writers freely, file-system/SQL readers do not overlap the writer of the same asset (lazy streams) but everything else overlaps; the race phase counts WARNING: DATA RACE blocks. distinct_nontrivial counts histories with >= 2 appends and >= 3 reads and concurrent histories in which an intermediate state was observed.",
 		Shards: [2]int{16, 16}, MinEvals: [2]int{50, 600},
 		RequirePositive: "ops:", RequireCount: 3,
 	})
